@@ -57,6 +57,8 @@ structure ApplyV where
   refetch : List Nat
   rejectSenders : List String
   pre : List Msg
+  /-- chunks whose `AddChunk` (another goroutine) overlaps with the processing of this verdict -/
+  conc : List Chunk := []
 deriving Repr
 
 inductive InfoV
@@ -87,6 +89,7 @@ inductive Ev
   | info (v : InfoV)
   | arriveChunk (c : Chunk) (r : ArriveRes)
   | arriveSnap (peer : String) (s : Snapshot) (added : Bool)
+  | raceChunk (c : Chunk)       -- an `AddChunk` racing with the rejection of its sender
 deriving DecidableEq, Repr
 
 /-- the syncer: pool, `SyncAny`'s chunk queue, whether `s.chunks` points to it, and the journal
@@ -218,6 +221,17 @@ def popInfo (sc : Script) : InfoV × Script :=
   | v :: rest => (v, { sc with infos := rest })
   | [] => (.echo, sc)
 
+/-- the racing chunks of a verdict that the model can answer for: sent by a (non-empty) sender
+this very verdict rejects. `AddChunk` holds the read lock of `s.mtx` from the blacklist check to the
+`Add`, the rejection holds the write lock from `RejectPeer` to `DiscardSender`, so either the chunk
+is queued before the rejection and `DiscardSender` removes it again (it is unreturned), or it is
+refused after: in both linearisations it is not in the queue afterwards
+(`Props.C14.racing_chunk_linearisations_agree`). -/
+def racing (v : ApplyV) : List Chunk :=
+  v.conc.filter fun c => c.sender ≠ "" && v.rejectSenders.contains c.sender
+
+def logAll (sy : Sy) (es : List Ev) : Sy := { sy with journal := sy.journal ++ es }
+
 /-- the body of the `applyChunks` loop for one chunk handed out by `Next`: the ABCI call, the
 arrivals during it, then `RefetchChunks` and `RejectSenders`; the verdict decides how the loop
 goes on -/
@@ -227,6 +241,7 @@ def applyOne (c : Chunk) (sy : Sy) (sc : Script) : ApplyRes × Sy × Script :=
   let sy := deliverAll recent sy v.pre
   if v.result = .error then (.error, sy, sc)
   else
+    let sy := logAll sy ((racing v).map .raceChunk)
     let (sy, sc) := doRefetch recent v.refetch sy sc
     let (sy, sc) := doRejectSenders recent v.rejectSenders sy sc
     (v.result, sy, sc)
